@@ -45,6 +45,7 @@ import Driver.C09B
 import Driver.AnnQ
 import Driver.KeyType
 import Driver.DocCursor
+import Driver.SchemaObj
 /-!
 Line-protocol driver `jsight-model` (DESIGN.md §12). One request per line on stdin, one reply per
 line on stdout. Core Lean only: nothing imported here may import Mathlib (the executable would
@@ -253,6 +254,7 @@ def handle (line : String) : String :=
   | "annq" :: r => Drv.AnnQ.handle r
   | "doccur" :: r => Drv.DocCur.handle r
   | "doccurx" :: r => Drv.DocCur.handleX r
+  | "sobj" :: r => Drv.SObj.handle r
   | "omap" :: _ => DOMap.handle (restOf line)
   | "semn" :: _ => DSemN.handle (restOf line)
   | "sem" :: _ => DSem.handle (restOf line)
